@@ -955,3 +955,23 @@ Proof.
 Qed.
 
 End FindPath.
+
+(* ------------------------------------------------------------------ get_skip_pidx *)
+Lemma keep_mask_length sd od : length (keep_mask sd od) = length sd.
+Proof. apply map_length. Qed.
+
+Lemma skip_pidx_same sd : skip_pidx sd sd = [].
+Proof.
+  unfold skip_pidx. assert (H : forall pre i, skip_from i (map (fun d => existsb (Nat.eqb d) (pre ++ sd)) sd) = []).
+  { induction sd as [|d sd IH]; intros pre i; [reflexivity|]. cbn [map skip_from].
+    replace (existsb (Nat.eqb d) (pre ++ d :: sd)) with true.
+    - replace (pre ++ d :: sd) with ((pre ++ [d]) ++ sd) by (rewrite <- app_assoc; reflexivity). apply IH.
+    - symmetry. apply existsb_exists. exists d. split; [apply in_or_app; right; left; reflexivity|apply Nat.eqb_refl]. }
+  apply (H [] O).
+Qed.
+
+(* the skip list is not determined by the operator node alone: it cannot be memoised per operator node *)
+Lemma skip_pidx_needs_state_node : ~ exists f : list nat -> list nat, forall sd od, skip_pidx sd od = f od.
+Proof.
+  intros [f H]. pose proof (H [1] [1]) as H1. pose proof (H [1; 7] [1]) as H2. rewrite <- H1 in H2. discriminate H2.
+Qed.
